@@ -261,7 +261,7 @@ class Pilot(object):
         # invoke pilot specific callbacks
         # FIXME: this iteration needs to be thread-locked!
         with self._cb_lock:
-            for _,cb_val in self._callbacks[rpc.PILOT_STATE].items():
+            for cb_val in list(self._callbacks[rpc.PILOT_STATE].values()):
 
                 cb      = cb_val['cb']
                 cb_data = cb_val['cb_data']
